@@ -78,6 +78,12 @@ def export_checks(tracks, forest, sel, wd, fmt, uniq, variant="plain"):
     closure = O.ancestors_closure(parent, sel)
     edges_exp = {(parent[n], n) for n in closure if parent.get(n) is not None}
     seg = tracks.segmentation
+    if seg is not None:
+        # the harness's own copy of the label array, refreshed only after edits
+        ref = getattr(tracks, "_fv_seg_ref", None)
+        if ref is None or ref[0] != id(seg):
+            tracks._fv_seg_ref = ref = (id(seg), np.array(seg, copy=True))
+        seg = ref[1]
     probs = []
     with warnings.catch_warnings():
         warnings.simplefilter("ignore")
@@ -197,10 +203,21 @@ def run_shard(spec):
     try:
         for i in range(spec["n"]):
             small = rng.random() < 0.7
-            if rng.random() < 0.15:
+            r0 = rng.random()
+            if r0 < 0.15:
                 # movie longer than one storage chunk of the exported label array
                 cfg = gen.big_config(rng, seg=True)
                 acc["counters"]["big-movies"] = acc["counters"].get("big-movies", 0) + 1
+            elif r0 < 0.27:
+                # many lineages with far-apart ids, most of them selected
+                cfg = gen.random_config(rng, p3d=0.0, extras=False, seg=True)
+                cfg.T = rng.randint(6, 8)
+                cfg.max_per_frame = 9
+                cfg.p_empty = 0.0
+                cfg.id_kind = "huge"
+                cfg.seg_dtype = "int64"
+                acc["counters"]["many-node-forests"] = \
+                    acc["counters"].get("many-node-forests", 0) + 1
             else:
                 cfg = gen.random_config(rng, p3d=0.15, extras=False)
                 cfg.T = rng.randint(2, 6)
@@ -226,6 +243,9 @@ def run_shard(spec):
                     acc["counters"].get("forests-exhaustive", 0) + 1
             else:
                 subsets = [set(rng.sample(nodes, rng.randint(1, len(nodes)))) for _ in range(120)]
+                if len(nodes) > 40:
+                    subsets += [set(rng.sample(nodes, len(nodes) - rng.randint(1, 6)))
+                                for _ in range(60)]
             for sel in subsets:
                 acc["evaluations"] += 1
                 try:
@@ -255,6 +275,9 @@ def run_shard(spec):
                             op = ogen.next(tracks)
                             execute(tracks, op)
                             ops_done.append(op)
+                    if tracks.segmentation is not None:
+                        tracks._fv_seg_ref = (id(tracks.segmentation),
+                                              np.array(tracks.segmentation, copy=True))
                     acc["counters"]["export-rounds-after-edits"] = \
                         acc["counters"].get("export-rounds-after-edits", 0) + 1
                     nodes = sorted(int(n) for n in tracks.graph.nodes)
@@ -308,7 +331,7 @@ def floors(tier):
             "exports-geff": 150, "exports-with-seg": 100, "postcondition-evaluations": 3000,
             "forests-where-node-0-is-a-parent": 3, "geff-seg-exports-beyond-first-chunk": 10,
             "exports-after-edits": 150, "exports-csv-colors": 40,
-            "exports-geff-overwrite": 40}
+            "exports-geff-overwrite": 40, "many-node-forests": 5}
 
 
 def replay(doc):
